@@ -12,7 +12,8 @@ from collections import OrderedDict
 import numpy as np
 from ..common import rng, WORK
 
-TECHNIQUE = ("runtime history monitor: executable reference model (dict of lists) stepped in lock-step with the real columnfile; "
+TECHNIQUE = ("runtime history monitor: executable reference model (dict of lists) stepped in lock-step with the real columnfile "
+             "+ icontract postconditions on its mutators (also switched on for the repository's own columnfile tests); "
              "quiescent-point comparison of titles/nrows and the attribute/item/getcolumn views after every operation; storage-sharing "
              "probe on copies; bounded-exhaustive operation sequences + random long histories")
 LEVEL_TEXT = ("Bounded-exhaustive exploration: ALL operation sequences up to depth 3 (quick) / 4 (thorough) over a 19-operation "
@@ -255,8 +256,36 @@ def run_history(run, columnfile, start, seq, tmpdir, tag):
             return
 
 
+def repo_tests_under_contracts(run, tmpdir):
+    """the repository's own columnfile tests, re-run with the icontract postconditions switched on"""
+    import shutil, subprocess, re
+    from ..common import REPO, PY
+    src = os.path.join(REPO, "test", "test_columnfile.py")
+    if not os.path.exists(src):
+        run.count("repo_tests_missing")
+        return
+    d = os.path.join(tmpdir, "repotests")
+    os.makedirs(d)
+    shutil.copy(src, d)
+    p = subprocess.run([PY, "-m", "vlib.contracts_columnfile", "test_columnfile.py"], cwd=d, stdout=subprocess.PIPE,
+                       stderr=subprocess.STDOUT, timeout=600)
+    txt = p.stdout.decode(errors="replace")
+    m = re.search(r"CONTRACT_EVALUATIONS (\d+)", txt)
+    nev = int(m.group(1)) if m else 0
+    run.count("contract_evaluations_in_repo_tests", nev)
+    if "PostBroken" in txt:
+        run.violation("contracts:repo-tests", "a columnfile postcondition fired while running the repository's own tests: %s"
+                      % txt[-600:], dict(start="repo-tests", ops=[]))
+    elif p.returncode != 0:
+        run.inconc("repository columnfile tests did not pass under contracts (rc %d): %s" % (p.returncode, txt[-300:]))
+    elif nev == 0:
+        run.inconc("contracts were never evaluated in the repository tests (bound before decoration?)")
+
+
 def check(run, replay=None):
     from ImageD11 import columnfile
+    from .. import contracts_columnfile
+    contracts_columnfile.install()      # every history below also runs under the postconditions
     os.makedirs(os.path.join(WORK, "tmp"), exist_ok=True)
     tmpdir = tempfile.mkdtemp(prefix="c17_", dir=os.path.join(WORK, "tmp"))
     import contextlib, io, shutil
@@ -286,6 +315,9 @@ def check(run, replay=None):
                 run.case((start, seq), nontrivial=True, sample=dict(start=start, ops=list(seq)) if i < 2 else None)
                 run_history(run, columnfile, start, seq, tmpdir, start[:3])
                 run.count("random_histories")
+        repo_tests_under_contracts(run, tmpdir)
+        run.count("contract_evaluations_in_histories", contracts_columnfile.COUNT["evaluations"])
+        run.require_counter("contract_evaluations_in_histories", 1000)
         run.extra["exhaustive_depth"] = depth
         run.extra["alphabet"] = OPS
         run.extra["exhaustive_over_reduced_alphabet"] = True
